@@ -19,7 +19,8 @@ CLAIMED = {
        "time and max step > 0, over exact rational arithmetic, that the step plan both runtimes implement takes no step when the times coincide, "
        "that every step points in the direction of travel, none exceeds the maximum and the steps sum to the difference within 1e-9. Tie: the same "
        "generic `plan` definition instantiated with native binary64 is compared bit-for-bit with runtime.py (recording stand-in filter) and with "
-       "ManagedFilter.h compiled from the working tree with a recording Impl (3 control/calibration combinations, 6 max_dt values).",
+       "ManagedFilter.h compiled from the working tree with a recording Impl (4 control/calibration combinations, 8 max_dt values from 1 ms to 250 s); the "
+       "max_dt constant of a generated header is probed too.",
   note="Trusted: Lean kernel + standard axioms; Lean native Float = IEEE binary64 (same hardware ops as CPython/g++ -ffp-contract=off); harness. "
        "The float versions of the four clauses are evaluated per run (tests) with slack 1e-9 + 4 ulp; they are not theorems.",
   technique="Lean 4 proof (floor/remainder algebra over Q) + bit-exact differential correspondence of the generic plan",
@@ -36,12 +37,14 @@ CLAIMED = {
   technique="Lean 4 proof (refinement of both runtimes to one fold; induction over histories) + trace correspondence",
   design="5 C11"),
  "C03": dict(
-  text="Lean 4 theorems (FormakVerif.C03: unflatten_entry, jacobianFlat_get, entry_is_partial, sensor_by_name, stride_by_readings_is_wrong) prove for every "
+  text="Lean 4 theorems (FormakVerif.C03: unflatten_entry, jacobianFlat_get, entry_is_partial, entry_is_true_partial, model_diff_correct, sensor_by_name, "
+       "stride_by_readings_is_wrong) prove for every "
        "number of outputs, columns and stride that a Jacobian program flattened row-major over w columns and un-flattened with stride w holds at (i,j) "
-       "the value of the model's symbolic derivative d out_i / d wrt_j, in particular for the rectangular sensor Jacobian over states+calibration. "
-       "Tie: process/control/sensor Jacobians of compiled filters at dyadic points vs the Lean model (own Expr.diff, exact rationals) and vs an "
-       "independent oracle (sympy diff by name).",
-  note="Trusted: Lean kernel + standard axioms; harness; Expr.diff is validated against sympy diff per instance; binary64 rounding (1e-9).",
+       "the value of the model's symbolic derivative d out_i / d wrt_j - which is the analytic partial derivative (Mathlib HasDerivAt, for + - * / integer "
+       "powers, sin cos tan exp log sqrt sinh cosh atan asin acos inside their domains) - in particular for the rectangular sensor Jacobian over states+calibration. "
+       "Tie: process/control/sensor Jacobians of compiled filters at dyadic points vs the Lean model (own Expr.diff; exact rationals, or Lean binary64 "
+       "for transcendental definitions) and vs an independent oracle (sympy diff by name).",
+  note="Trusted: Lean kernel + standard axioms (Mathlib analysis); harness; binary64 rounding (1e-9; 1e-6 on the transcendental stream); libm.",
   technique="Lean 4 proof (index arithmetic of flatten/un-flatten) + differential correspondence with rectangular shapes forced",
   design="5 C03"),
  "C04": dict(
@@ -80,32 +83,34 @@ CLAIMED = {
   technique="Lean 4 proof (invariant by induction over histories) + long-run float histories on the implementation",
   design="5 C09"),
  "C02": dict(
-  text="Lean 4 theorems (FormakVerif.C02: accessor_roundtrip, body_sound, jacobian_spec_entry) prove that accessors numbered by enumerate(layout) "
+  text="Lean 4 theorems (FormakVerif.C02: accessor_roundtrip, body_sound, jacobian_spec_entry, jacobian_spec_is_derivative) prove that accessors numbered by enumerate(layout) "
        "with a constructor filling slots in layout order make set-by-name = read-by-name for any declaration, that a well-scoped generated body is "
-       "total and equals its inlined form, and that the specification each Jacobian body is checked against holds d out_i / d wrt_j at (i,j). Tie "
+       "total and equals its inlined form, and that the specification each Jacobian body is checked against holds d out_i / d wrt_j at (i,j) - the analytic derivative (Mathlib HasDerivAt). Tie "
        "(translator): every function body of the header/source generated from the working tree is parsed back into a Program and checked by the "
        "Lean driver (WellScoped, complete row-major target grid, exact agreement with the definition / Lean's own derivative at rational points); "
        "(correspondence) every unit is compiled with g++ and evaluated with inputs set through named option fields and outputs read through named "
-       "accessors against sympy by name, for all four control/calibration presences, 0-3 sensors, CSE on/off, Model and EKF generators.",
+       "accessors against sympy by name, for all four control/calibration presences, 0-3 sensors, CSE on/off, Model and EKF generators, configuration given as object or dict, noise keyed by str or Symbol, symbols with assumptions, functions with more than ten temporaries, const accessors.",
   note="Trusted: Lean kernel + standard axioms; Lean interpreter for per-unit checks; cparse.py translator; g++ + Eigen stand-in instead of clang+Eigen; "
-       "sympy ccode. Per-block agreement is a randomised identity test at 4 rational points, not a symbolic proof.",
+       "sympy ccode. Each rational-fragment block is decided for all points by the verified rational-function checker (FormakVerif.C08.symbolic_check_sound); "
+       "blocks outside the fragment or the size guard fall back to exact agreement at 4 rational points (a randomised identity test); the evidence counts both.",
   technique="Lean 4 proof (layout/accessor round-trip, CSE soundness) + translator from generated C++ text + compiled differential correspondence",
   design="5 C02"),
  "C07": dict(
-  text="Lean 4 theorems (FormakVerif.C07: predict_same, update_same, decision_same, decision_same_disabled) prove that the Python-shaped and the "
+  text="Lean 4 theorems (FormakVerif.C07: predict_same, update_same, innovCov_same, gain_same, decision_same, decision_same_disabled, sensor_update_same, "
+       "history_same) prove that the Python-shaped and the "
        "generated-C++-shaped prediction, update and accept/reject functions are the same function in exact arithmetic. Tie: the same definition "
        "compiled both ways (g++), driven through chains of prediction/update steps on identical binary64 inputs; state, covariance, stored "
-       "innovation and decision compared by name.",
+       "innovation and decision compared by name, and on rational definitions both are also compared with the exact Lean model run on the same inputs.",
   note="Trusted: Lean kernel + standard axioms; harness; Eigen stand-in (Gauss-Jordan inverse) vs numpy/LAPACK, 1e-9 relative tolerance on "
        "well-conditioned chains (cond(P) <= 1e5).",
   technique="Lean 4 proof (associativity via Mathlib matrices) + Python-vs-compiled-C++ differential chains",
   design="5 C07"),
  "C08": dict(
-  text="Lean 4 theorems (FormakVerif.C08: block_eq_inlined, result_eq_inlined, wellScoped_total, on_off, off_computes) prove for every basic block "
+  text="Lean 4 theorems (FormakVerif.C08: block_eq_inlined, result_eq_inlined, wellScoped_total, on_off, off_computes, symbolic_check_sound) prove for every basic block "
        "that temporaries assigned once, in order, from inputs and earlier temporaries make the block total and equal to its inlined body, and that "
        "two blocks computing the same statements (CSE on / off) agree on every input. Tie (translator): every post-CSE block the current tree "
-       "produces - Python blocks recorded at the lambdify seam, C++ bodies parsed from the generated source - is checked in Lean (WellScoped + exact "
-       "agreement at rational points) on a nested-share stream; numeric on/off comparison of all Python and compiled C++ outputs.",
+       "produces - Python blocks recorded at the lambdify seam, C++ bodies parsed from the generated source - is checked in Lean (WellScoped + the "
+       "verified rational-function equality checker, sound for all points; exact agreement at rational points otherwise) on a nested-share stream; numeric on/off comparison of all Python and compiled C++ outputs.",
   note="Trusted: Lean kernel + standard axioms; Lean interpreter; translators; sympy cse/simplify are parameters checked per instance.",
   technique="Lean 4 proof (substitution lemma for straight-line programs) + translators (lambdify seam, generated C++ text)",
   design="5 C08"),
@@ -128,11 +133,12 @@ CLAIMED = {
   technique="Lean 4 proof (refinement to by-name spec; equivariance under injective renaming) + metamorphic correspondence",
   design="5 C13"),
  "C14": dict(
-  text="Lean 4 theorems (FormakVerif.C14: ui_accepts_iff_valid, compile_accepts_iff_valid, ekf_accepts_iff_valid, refuses) prove, for every "
+  text="Lean 4 theorems (FormakVerif.C14: ui_accepts_iff_valid, compile_accepts_iff_valid, ekf_accepts_iff_valid, refuses; without any well-formedness "
+       "hypothesis: negative_noise_refused, sensor_noise_names_refused) prove, for every "
        "definition skeleton whose dictionaries/sets have no duplicate keys, that the sequence of checks each entry point performs accepts "
        "exactly the structurally valid definitions of the property (disjoint symbol sets, update keys = state, calibration keys = calibration "
        "symbols, Symbol-keyed non-negative process noise for exactly the controls, sensor models over state and calibration only, sensor noise "
-       "matching sensors and readings). Tie: seeded valid definitions and every single fault kind K1-K18 (and pairs in thorough) through "
+       "matching sensors and readings). Tie: seeded valid definitions and every single fault kind K1-K19 (incl. tiny / relatively small negative noise, omitted calibration map, duplicate-named noise entries) (and pairs in thorough) through "
        "ui.Model, python.compile, python.compile_ekf, cpp.compile, cpp.compile_ekf vs the property and vs the Lean accepts-functions; refused "
        "C++ generations must leave no file.",
   note="Trusted: Lean kernel + standard axioms; harness fault injector; 'refused' = any exception. Known finding (listed): Symbol-keyed sensors "
@@ -140,10 +146,14 @@ CLAIMED = {
   technique="Lean 4 proof (decision logic: accepts <=> valid) + exhaustive single-fault injection correspondence",
   design="5 C14"),
  "C15": dict(
-  text="Lean 4 theorems (FormakVerif.C15: skeleton_perm, layout_order_free, repeatable) prove that everything whose order the generator decides "
-       "(accessor slots, option fields / constructor order, Python arglist, sensor ids, reading slots) depends only on the sets of declared "
-       "names. Tie: sub-processes under different PYTHONHASHSEED x permuted declarations x set/list containers; sha256 of header and source, "
-       "Python arglist and reading order compared; the skeleton read from the generated text compared with the Lean skeleton.",
+  text="Lean 4 theorems (FormakVerif.C15: skeleton_perm, layout_order_free, repeatable, lookup_perm, emitted_decl_order, emitSensor_decl_order) "
+       "prove that everything whose order the generator decides - accessor slots, option fields / constructor order, Python arglist, update "
+       "statements, flattened Jacobians, noise diagonals, sensor ids and per-sensor reading slots, statements and noises (the `emitted` artifact) - "
+       "depends only on the sets of declared names and on what is given under each name. Tie: sub-processes under different PYTHONHASHSEED x "
+       "permuted declarations x set/list containers; sha256 of header and source, Python arglist, reading order and the scikit-learn adapter's "
+       "data-matrix layout compared; regeneration in-process and after a Python filter was built from the same model object; the skeleton read "
+       "from the generated text compared with the Lean skeleton and every run's definition as declared in that run through the Lean `emitted` "
+       "model vs the compiled Python filter.",
   note="Trusted: Lean kernel + standard axioms; harness. Hash-seed independence of sympy's printers/cse is observed on the sampled seeds, not proven.",
   technique="Lean 4 proof (permutation invariance of the sorted layout) + multi-process hash-seed / permutation differential",
   design="5 C15"),
@@ -169,14 +179,15 @@ CLAIMED = {
   design="5 C17"),
  "C18": dict(
   text="Lean 4 theorems (FormakVerif.C18): search_sound / bfs_sound prove for every transition graph with distinct transition names, every fuel "
-       "and every queue that a path returned by the breadth-first search, followed from the start state, ends in the requested state; argmin_mem "
+       "and every queue that a path returned by the breadth-first search, followed from the start state, ends in the requested state; "
+       "search_is_shortest / unreachable_fails that no shorter path exists and that failure means unreachable (any finite graph); argmin_mem "
        "/ argmin_some prove that grid selection returns a member of the grid; min_samples the size gate. The transition graph of the current "
        "source is extracted from the live classes on every run (translator) and declared_transitions, search_table (shortest paths and failure "
        "exactly for unreachable targets, all 3x3 pairs), history_in_order are re-checked on it by the kernel. Tie: search for all pairs and "
        "non-StateId targets vs the Lean search, paths followed on real objects, fit_model on data sizes 0..4 and small grids with the "
        "GridSearchCV instance observed (selected = best_params_ = exported config, all within the grid).",
   note="Trusted: Lean kernel (decide on the 3-state table); harness graph extractor; scikit-learn GridSearchCV internals are outside the model; "
-       "shortest-path/completeness are proven for the extracted graph, not for arbitrary graphs.",
+       "shortest-path/completeness are proven for arbitrary graphs and re-decided on the extracted graph.",
   technique="Lean 4 proof (BFS soundness by queue invariant; decide on the regenerated graph) + translator + object-level correspondence",
   design="5 C18"),
  "C19": dict(
